@@ -561,6 +561,18 @@ func (fc *FnCtx) builtin(b *ssa.Builtin, c *ssa.CallCommon, resT types.Type, st 
 // fresh backing array holding old content ++ new content (re-use of spare
 // capacity is not modelled; aliasing through append is outside the subset).
 func (fc *FnCtx) appendBuiltin(c *ssa.CallCommon, resT types.Type, st *State, g *smt.Term, where string) Val {
+	switch fc.reslicedOrigin(c.Args[0]) {
+	case resliceLocal:
+		fc.refuse("append to a re-slice of a locally allocated slice at %s: it may write into the original's backing array, which the fresh-array model of append does not represent", where)
+	case resliceForeign:
+		// append(x[a:b], ...) with spare capacity writes into x's backing array:
+		// memory the function was handed by its caller (or loaded from the heap)
+		// and has no permission to change. Slices are modelled by value, so the
+		// write itself is not represented; the frame condition is that it cannot
+		// happen, which holds only if this point is unreachable.
+		fc.oblige("frame", "append-does-not-write-into-the-backing-array-of-a-re-sliced-slice", nil, g, smt.False, where,
+			"append(x[a:b], ...) re-uses x's spare capacity and overwrites x's elements (and every other slice sharing that array)")
+	}
 	s := fc.term(fc.val(c.Args[0]))
 	if kindOf(resT) == KStrList {
 		other := fc.term(fc.val(c.Args[1]))
@@ -917,4 +929,112 @@ func (fc *FnCtx) existsNow(v *smt.Term, k string) {
 	case v.Sort == smt.Int && fc.refValuedKey(k):
 		fc.S.Assert(smt.Ge(v, lowest), "a reference written by a callee refers to an object that exists now")
 	}
+}
+
+const (
+	resliceNone = iota
+	resliceLocal
+	resliceForeign
+)
+
+// reslicedOrigin reports whether v may be (a later version of) a re-slice
+// x[a:b] of another slice x: the result of an ssa.Slice on a slice-typed
+// operand, or a phi / append / re-slice of one. Full slice expressions
+// x[a:b:b] are exempt (no spare capacity beyond b to write into on the first
+// append, and the reallocated result no longer shares x's array). The origin
+// is local when x was allocated by this function (make / composite literal),
+// foreign otherwise (parameter, field, call result, ...).
+func (fc *FnCtx) reslicedOrigin(v ssa.Value) int {
+	fn := v.Parent()
+	if fn == nil {
+		return resliceNone
+	}
+	if fc.resliced == nil {
+		fc.resliced = map[ssa.Value]int{}
+		fc.reslicedDone = map[*ssa.Function]bool{}
+	}
+	if !fc.reslicedDone[fn] {
+		fc.reslicedDone[fn] = true
+		var localRoot func(x ssa.Value, depth int) bool
+		localRoot = func(x ssa.Value, depth int) bool {
+			if depth > 20 {
+				return false
+			}
+			switch y := x.(type) {
+			case *ssa.MakeSlice:
+				return true
+			case *ssa.Slice:
+				if _, isPtr := y.X.Type().Underlying().(*types.Pointer); isPtr {
+					_, isAlloc := y.X.(*ssa.Alloc)
+					return isAlloc
+				}
+				return localRoot(y.X, depth+1)
+			case *ssa.Phi:
+				for _, e := range y.Edges {
+					if e == x {
+						continue
+					}
+					if !localRoot(e, depth+1) {
+						return false
+					}
+				}
+				return true
+			case *ssa.Call:
+				if b, ok := y.Call.Value.(*ssa.Builtin); ok && b.Name() == "append" {
+					return localRoot(y.Call.Args[0], depth+1)
+				}
+			case *ssa.Const:
+				return true // nil slice
+			}
+			return false
+		}
+		for _, b := range fn.Blocks {
+			for _, in := range b.Instrs {
+				sl, ok := in.(*ssa.Slice)
+				if !ok {
+					continue
+				}
+				if _, isSlice := sl.X.Type().Underlying().(*types.Slice); !isSlice {
+					continue
+				}
+				if sl.Max != nil && sl.Max == sl.High {
+					continue
+				}
+				if localRoot(sl.X, 0) {
+					fc.resliced[sl] = resliceLocal
+				} else {
+					fc.resliced[sl] = resliceForeign
+				}
+			}
+		}
+		for changed := true; changed; {
+			changed = false
+			mark := func(dst ssa.Value, k int) {
+				if k != resliceNone && fc.resliced[dst] < k {
+					fc.resliced[dst] = k
+					changed = true
+				}
+			}
+			for _, b := range fn.Blocks {
+				for _, in := range b.Instrs {
+					switch y := in.(type) {
+					case *ssa.Phi:
+						for _, e := range y.Edges {
+							mark(y, fc.resliced[e])
+						}
+					case *ssa.Slice:
+						if y.Max != nil && y.Max == y.High {
+							continue
+						}
+						mark(y, fc.resliced[y.X])
+					case *ssa.Call:
+						if bi, ok := y.Call.Value.(*ssa.Builtin); ok && bi.Name() == "append" {
+							mark(y, fc.resliced[y.Call.Args[0]])
+						}
+					}
+				}
+			}
+		}
+	}
+	return fc.resliced[v]
 }
